@@ -266,7 +266,7 @@ func buildVMModel(c *Ctx) *vmModel {
 		if _, done := m.helpers[name]; done {
 			continue
 		}
-		fd := c.funcDecl("interp", "interp."+name)
+		fd, _ := w.fn.Syntax().(*ast.FuncDecl)
 		if fd == nil {
 			m.issues = append(m.issues, "stack helper "+name+" has no declaration")
 			continue
@@ -569,6 +569,24 @@ type vmWalker struct {
 	results []*vmPathResult
 	issues  []string
 	depth   int
+	// a helper that is handed the code and the instruction pointer and returns the new instruction pointer: its
+	// parameters stand for execute's code and ip while it is walked
+	codeOv, ipOv types.Object
+	ipResult     int // index of the result that carries the instruction pointer back
+}
+
+func (w *vmWalker) iobj() types.Object {
+	if w.ipOv != nil {
+		return w.ipOv
+	}
+	return w.m.ipObj
+}
+
+func (w *vmWalker) cobj() types.Object {
+	if w.ipOv != nil {
+		return w.codeOv // nil when the helper is not given the code
+	}
+	return w.m.codeObj
 }
 
 func (w *vmWalker) issue(format string, args ...interface{}) {
@@ -764,7 +782,7 @@ func (w *vmWalker) stmt(s ast.Stmt, in []*vmState) []*vmState {
 	case *ast.ExprStmt:
 		return w.effects(s.X, in)
 	case *ast.IncDecStmt:
-		if id, ok := s.X.(*ast.Ident); ok && info.Uses[id] == w.m.ipObj {
+		if id, ok := s.X.(*ast.Ident); ok && info.Uses[id] == w.iobj() {
 			for _, st := range in {
 				st.ip++
 			}
@@ -787,7 +805,15 @@ func (w *vmWalker) stmt(s ast.Stmt, in []*vmState) []*vmState {
 		for _, r := range s.Results {
 			cur = w.effects(r, cur)
 		}
+		if w.ipOv != nil && len(s.Results) > w.ipResult {
+			if id, ok := s.Results[w.ipResult].(*ast.Ident); !ok || info.Uses[id] != w.ipOv {
+				w.issue("helper %s returns an instruction pointer that is not its own ip variable at %s", w.name, w.m.c.relPos(s.Pos()))
+			}
+		}
 		normal := w.fnMode && len(s.Results) > 0 && isIdent(s.Results[len(s.Results)-1], "nil")
+		if w.fnMode && w.ipOv != nil && len(s.Results) == 1 {
+			normal = true // a helper that returns only the instruction pointer
+		}
 		// `return helper(...)` forwarding a helper's results (the last of which is an error): the path may end
 		// normally or with an error - it counts as both
 		forwards := false
@@ -988,7 +1014,7 @@ func (w *vmWalker) loop(init ast.Stmt, cond ast.Expr, post ast.Stmt, body *ast.B
 		probe.sp, probe.ip, probe.ipVar = linC(0), 0, linC(0)
 		probe.reads = map[int]bool{}
 		baseIP := st.ip
-		sub := &vmWalker{m: w.m, name: w.name, depth: w.depth, fnMode: w.fnMode}
+		sub := &vmWalker{m: w.m, name: w.name, depth: w.depth, fnMode: w.fnMode, codeOv: w.codeOv, ipOv: w.ipOv, ipResult: w.ipResult}
 		res := sub.stmts(body.List, []*vmState{probe})
 		w.issues = append(w.issues, sub.issues...)
 		// paths leaving from inside the loop (return err etc.)
@@ -1064,12 +1090,37 @@ func (w *vmWalker) loop(init ast.Stmt, cond ast.Expr, post ast.Stmt, body *ast.B
 func (w *vmWalker) assign(s *ast.AssignStmt, in []*vmState) []*vmState {
 	info := w.m.pkg.TypesInfo
 	cur := in
+	// ip, ... = p.helper(code, ip, ...): the helper consumes operands and hands back the new instruction pointer
+	if len(s.Rhs) == 1 && s.Tok == token.ASSIGN {
+		if call, ok := s.Rhs[0].(*ast.CallExpr); ok {
+			if f := calleeOf(info, call); f != nil && f.Pkg() == w.m.pkg.Types && w.iobj() != nil {
+				ai, ci, li := -1, -1, -1
+				for i, a := range call.Args {
+					if id, ok := a.(*ast.Ident); ok {
+						if info.Uses[id] == w.iobj() {
+							ai = i
+						} else if w.cobj() != nil && info.Uses[id] == w.cobj() {
+							ci = i
+						}
+					}
+				}
+				for i, l := range s.Lhs {
+					if id, ok := l.(*ast.Ident); ok && info.Uses[id] == w.iobj() {
+						li = i
+					}
+				}
+				if ai >= 0 && li >= 0 {
+					return w.inlineIP(f, call, ai, ci, li, cur)
+				}
+			}
+		}
+	}
 	for _, r := range s.Rhs {
 		cur = w.effects(r, cur)
 	}
 	// ip += e / ip = e
 	if len(s.Lhs) == 1 {
-		if id, ok := s.Lhs[0].(*ast.Ident); ok && info.Uses[id] == w.m.ipObj && w.m.ipObj != nil {
+		if id, ok := s.Lhs[0].(*ast.Ident); ok && info.Uses[id] == w.iobj() && w.iobj() != nil {
 			for _, st := range cur {
 				v, ok := w.evalLin(s.Rhs[0], st)
 				if !ok || s.Tok != token.ADD_ASSIGN {
@@ -1148,7 +1199,7 @@ func (w *vmWalker) absOf(e ast.Expr, st *vmState) (absVal, bool) {
 		}
 	case *ast.IndexExpr:
 		// code[ip+K]
-		if id, ok := x.X.(*ast.Ident); ok && info.Uses[id] == w.m.codeObj && w.m.codeObj != nil {
+		if id, ok := x.X.(*ast.Ident); ok && info.Uses[id] == w.cobj() && w.cobj() != nil {
 			if k, ok := w.ipOffset(x.Index); ok {
 				return absVal{kind: akOperand, op: st.ip + k}, true
 			}
@@ -1181,11 +1232,11 @@ func (w *vmWalker) ipOffset(e ast.Expr) (int, bool) {
 	info := w.m.pkg.TypesInfo
 	switch x := e.(type) {
 	case *ast.Ident:
-		if info.Uses[x] == w.m.ipObj {
+		if info.Uses[x] == w.iobj() {
 			return 0, true
 		}
 	case *ast.BinaryExpr:
-		if id, ok := x.X.(*ast.Ident); ok && info.Uses[id] == w.m.ipObj && x.Op == token.ADD {
+		if id, ok := x.X.(*ast.Ident); ok && info.Uses[id] == w.iobj() && x.Op == token.ADD {
 			if v, ok := constInt(info, x.Y); ok {
 				return int(v), true
 			}
@@ -1212,7 +1263,7 @@ func (w *vmWalker) evalLin(e ast.Expr, st *vmState) (Lin, bool) {
 			}
 		}
 	case *ast.IndexExpr:
-		if id, ok := x.X.(*ast.Ident); ok && info.Uses[id] == w.m.codeObj && w.m.codeObj != nil {
+		if id, ok := x.X.(*ast.Ident); ok && info.Uses[id] == w.cobj() && w.cobj() != nil {
 			if k, ok := w.ipOffset(x.Index); ok {
 				return linAtom(fmt.Sprintf("op%d", st.ip+k)), true
 			}
@@ -1415,7 +1466,7 @@ func (w *vmWalker) recordReads(e ast.Expr, sts []*vmState) {
 		if !ok {
 			return true
 		}
-		if id, ok := ix.X.(*ast.Ident); ok && info.Uses[id] == w.m.codeObj && w.m.codeObj != nil {
+		if id, ok := ix.X.(*ast.Ident); ok && info.Uses[id] == w.cobj() && w.cobj() != nil {
 			if k, ok := w.ipOffset(ix.Index); ok {
 				for _, st := range sts {
 					st.reads[st.ip+k] = true
@@ -1492,6 +1543,88 @@ func (w *vmWalker) inline(f *types.Func, call *ast.CallExpr, in []*vmState) []*v
 			n.sp = n.sp.Add(x.sp)
 			n.guards = append(n.guards, x.g...)
 			out = append(out, n)
+		}
+	}
+	return out
+}
+
+// inlineIP walks a helper that is handed the instruction pointer (and the code) and returns the new instruction
+// pointer, with the helper's parameters standing for execute's ip and code: the operands it reads and skips are
+// accounted to the opcode whose clause calls it.
+func (w *vmWalker) inlineIP(f *types.Func, call *ast.CallExpr, ai, ci, li int, in []*vmState) []*vmState {
+	if w.depth > 3 {
+		w.issue("call depth exceeded at %s", f.Name())
+		return in
+	}
+	name := f.Name()
+	if sig, ok := f.Type().(*types.Signature); ok && sig.Recv() != nil {
+		name = "interp." + name
+	}
+	fd := w.m.c.funcDecl("interp", name)
+	if fd == nil || fd.Body == nil {
+		w.issue("no body for callee %s that is handed the instruction pointer", f.Name())
+		return in
+	}
+	info := w.m.pkg.TypesInfo
+	var params []types.Object
+	for _, fl := range fd.Type.Params.List {
+		for _, nm := range fl.Names {
+			params = append(params, info.Defs[nm])
+		}
+	}
+	if ai >= len(params) || ci >= len(params) {
+		w.issue("callee %s: parameters do not match the call", f.Name())
+		return in
+	}
+	var out []*vmState
+	for _, st := range in {
+		bind := map[types.Object]absVal{}
+		for i, po := range params {
+			if i < len(call.Args) && i != ai && i != ci {
+				if v, ok := w.absOf(call.Args[i], st); ok {
+					bind[po] = v
+				}
+			}
+		}
+		sub := &vmWalker{m: w.m, name: "fn:" + f.Name(), depth: w.depth + 1, fnMode: true, ipOv: params[ai], ipResult: li}
+		if ci >= 0 {
+			sub.codeOv = params[ci]
+		}
+		start := st.clone()
+		start.sp = linC(0)
+		start.guards = nil
+		start.env = bind
+		res := sub.stmts(fd.Body.List, []*vmState{start})
+		for _, r := range res {
+			sub.results = append(sub.results, &vmPathResult{st: r, kind: 0})
+		}
+		w.issues = append(w.issues, sub.issues...)
+		any := false
+		for _, r := range sub.results {
+			if r.kind != 0 {
+				continue
+			}
+			dup := false
+			for _, o := range out {
+				if o.ip == r.st.ip && o.ipVar.Eq(r.st.ipVar) && o.sp.Eq(st.sp.Add(r.st.sp)) && sameGuards(o.guards, append(append([]Lit(nil), st.guards...), operandGuards(r.st.guards)...)) {
+					dup = true
+				}
+			}
+			any = true
+			if dup {
+				continue
+			}
+			n := r.st.clone()
+			n.sp = st.sp.Add(r.st.sp)
+			n.guards = append(append([]Lit(nil), st.guards...), operandGuards(r.st.guards)...)
+			n.env = map[types.Object]absVal{}
+			for k, v := range st.env {
+				n.env[k] = v
+			}
+			out = append(out, n)
+		}
+		if !any {
+			w.results = append(w.results, &vmPathResult{st: st, kind: 1})
 		}
 	}
 	return out
